@@ -33,6 +33,9 @@ ASSUMPTIONS = [
 DRIVER = "source_finder.SourceFinder.find_sources_in_image"
 
 MUTANTS = [
+    ("driver hands the background map to find_islands",
+     "AegeanTools/source_finder.py",
+     "bkg=np.zeros_like(data),", "bkg=global_data.bkgimg,", "C01-R13"),
     ("three-pixel-wide islands fixed to the psf",
      "AegeanTools/source_finder.py",
      "            min(data.shape) <= 2\n", "            min(data.shape) <= 3\n",
@@ -222,6 +225,10 @@ def run(ctx):
     ctx.floor("C01-R8", n8, 2, "scipy.ndimage.label calls reachable from "
               "blind finding")
     r12_free_shape(ctx, prog)
+    # the background is subtracted exactly once before the islands are
+    # segmented (shared with C02-R9)
+    from .c02 import r9_background
+    r9_background(ctx, prog, rule="C01-R13")
     # ---------------------------------------------------------------- R4
     n = rules_num.lmfit_int_uses(ctx, "C01-R4", reach)
     ctx.note("C01-R4: %d int-only uses of coerced lmfit values" % n)
